@@ -67,6 +67,10 @@ struct Imager {
     scratch: PathBuf,
     plan: Plan,
     post_every: u64,
+    /// fidelity mode: kill the process for real (SIGKILL) when this image ordinal is reached
+    kill_at: Option<u64>,
+    /// fidelity mode: (image ordinal, hash of the image's dump) of every image
+    record: Mutex<Vec<(u64, u64)>>,
 }
 
 impl Imager {
@@ -113,6 +117,13 @@ impl Imager {
         g.busy = true;
         g.images += 1;
         let n_image = g.images;
+        if self.kill_at == Some(n_image) {
+            // a real crash at exactly this event: only what the kernel already has survives
+            unsafe { libc::kill(libc::getpid(), libc::SIGKILL) };
+            loop {
+                std::thread::sleep(std::time::Duration::from_secs(1));
+            }
+        }
         let class = if kind.starts_with("sys:") { kind.to_string() } else { kind.to_string() };
         *g.by_class.entry(class.clone()).or_insert(0) += 1;
         // which version must the image show?
@@ -166,6 +177,7 @@ impl Imager {
             let db: Option<RawDb> = env.open_database(&rtxn, None).map_err(|e| ("image_does_not_open".to_string(), e.to_string()))?;
             let Some(db) = db else { return Err(("image_does_not_open".into(), "the unnamed database is missing".into())) };
             let d = crate::snapshot::dump_txn(&rtxn, db);
+            self.record.lock().unwrap().push((n_image, dump_hash(&d)));
             if &d != exp {
                 return Err((
                     "image_not_a_committed_version".into(),
@@ -228,6 +240,12 @@ fn post_crash_plan(plan: &Plan, world: &World, salt: u64) -> Plan {
 }
 
 pub fn run(plan: &Plan, workdir: &Path) -> Outcome {
+    run_mode(plan, workdir, None, false).0
+}
+
+/// `kill_at`: SIGKILL the process at that image ordinal; `keep`: leave the work directory behind.
+/// Returns the outcome and the (image ordinal, dump hash) list.
+pub fn run_mode(plan: &Plan, workdir: &Path, kill_at: Option<u64>, keep: bool) -> (Outcome, Vec<(u64, u64)>) {
     let ts = Turnstile::new(plan.cfg.sched_seed, &plan.cfg.sched, plan.cfg.pool.max(1));
     ts.adopt_running(WRITER);
     let mut ex = Exec::new(plan, workdir, Some(ts));
@@ -254,7 +272,9 @@ pub fn run(plan: &Plan, workdir: &Path) -> Outcome {
         image_dir: workdir.join("image"),
         scratch: ex.tmpdir.clone(),
         plan: plan.clone(),
-        post_every: plan.params.get("post_every").copied().unwrap_or(8).max(1),
+        post_every: if kill_at.is_some() { u64::MAX } else { plan.params.get("post_every").copied().unwrap_or(8).max(1) },
+        kill_at,
+        record: Mutex::new(Vec::new()),
     });
     *ex.ctx.observer.write().unwrap() = Some(imager.clone());
     let im2 = imager.clone();
@@ -304,6 +324,83 @@ pub fn run(plan: &Plan, workdir: &Path) -> Outcome {
     let out = ex.finish();
     crate::ctx::set_active(None);
     crate::turnstile::release_thread();
-    let _ = std::fs::remove_dir_all(workdir);
-    out
+    if !keep {
+        let _ = std::fs::remove_dir_all(workdir);
+    }
+    let rec = imager.record.lock().unwrap().clone();
+    (out, rec)
+}
+
+/// `arroy-sim kill-at <plan.json> <image ordinal> <dir>`: run the plan and die by SIGKILL at that event.
+pub fn kill_at_main(args: &[String]) -> i32 {
+    crate::init_process();
+    let plan: Plan = serde_json::from_slice(&std::fs::read(&args[0]).unwrap()).unwrap();
+    let n: u64 = args[1].parse().unwrap();
+    let dir = PathBuf::from(&args[2]);
+    let _ = run_mode(&plan, &dir, Some(n), true);
+    // the plan ended before the event was reached
+    4
+}
+
+/// Fidelity of the crash model: for sampled (plan, event) pairs a child process really dies by
+/// SIGKILL at the event; the directory it leaves behind must read back exactly like the image the
+/// simulator takes at the same event. A disagreement is a harness error, not a verdict.
+pub fn fidelity_main(n_plans: u64) -> i32 {
+    crate::init_process();
+    let vseed = crate::driver::verif_seed();
+    let exe = std::env::current_exe().unwrap();
+    let base = crate::driver::workdir_base();
+    let mut pairs = 0;
+    let mut mismatches = 0;
+    let mut by_phase: std::collections::BTreeMap<String, u64> = Default::default();
+    for j in 0..n_plans {
+        let seed = crate::util::run_seed(vseed, "C09", "fidelity", j);
+        let plan = gen(seed, false);
+        let (out, rec) = run_mode(&plan, &base.join("run"), None, false);
+        if out.violation.is_some() || rec.is_empty() {
+            continue;
+        }
+        let planfile = base.join("fid-plan.json");
+        std::fs::create_dir_all(&base).ok();
+        std::fs::write(&planfile, serde_json::to_vec(&plan).unwrap()).unwrap();
+        let mut r = Rng::new(seed ^ 0xF1DE);
+        for _ in 0..4 {
+            let (ordinal, expect) = rec[r.below(rec.len() as u64) as usize];
+            let dir = base.join("fid-child");
+            let _ = std::fs::remove_dir_all(&dir);
+            let st = std::process::Command::new(&exe)
+                .args(["kill-at", planfile.to_str().unwrap(), &ordinal.to_string(), dir.to_str().unwrap()])
+                .stdout(std::process::Stdio::null())
+                .stderr(std::process::Stdio::null())
+                .status()
+                .unwrap();
+            use std::os::unix::process::ExitStatusExt;
+            if st.signal() != Some(libc::SIGKILL) {
+                eprintln!("HARNESS-ERROR fidelity: child did not die by SIGKILL at image {ordinal} of seed {seed}: {st}");
+                return 2;
+            }
+            // reopen what the dead process left behind (lock file included)
+            let env = unsafe { EnvOpenOptions::new().read_txn_without_tls().map_size(plan.cfg.map_size).max_readers(16).open(dir.join("env")) }.unwrap();
+            let got = {
+                let rtxn = env.read_txn().unwrap();
+                let db: Option<RawDb> = env.open_database(&rtxn, None).unwrap();
+                db.map(|db| dump_hash(&crate::snapshot::dump_txn(&rtxn, db)))
+            };
+            env.prepare_for_closing().wait();
+            let _ = std::fs::remove_dir_all(&dir);
+            pairs += 1;
+            *by_phase.entry(if got == Some(expect) { "agree".into() } else { "disagree".into() }).or_insert(0) += 1;
+            if got != Some(expect) {
+                mismatches += 1;
+                println!("fidelity mismatch: seed {seed} image {ordinal}: simulated image hash {expect:x}, after a real SIGKILL {got:x?}");
+            }
+        }
+    }
+    let _ = std::fs::remove_dir_all(&base);
+    println!("fidelity: {pairs} (plan, event) pairs killed for real with SIGKILL; {mismatches} disagreements with the simulated crash image {by_phase:?}");
+    if mismatches > 0 {
+        eprintln!("HARNESS-ERROR the crash model disagrees with real SIGKILL");
+        return 2;
+    }
+    0
 }
